@@ -148,7 +148,7 @@ pub fn run(seed: u64, n: usize, bin: &str, scratch: &str, driver: &str, out: &st
         }
         // sometimes an input whose name is the sibling name of another input
         let special = (1..=7).contains(&k);
-        if !special && rng.chance(1, 9) {
+        if (!special && rng.chance(1, 9)) || k == 8 {
             let t: String = rng.pick(&corpus.texts).chars().take(300).collect();
             let ru = "\u{41f}\u{440}\u{438}\u{432}\u{435}\u{442}, \u{43c}\u{438}\u{440}! \u{42d}\u{442}\u{43e} \u{43f}\u{440}\u{43e}\u{441}\u{442}\u{43e}\u{439} \u{440}\u{443}\u{441}\u{441}\u{43a}\u{438}\u{439} \u{442}\u{435}\u{43a}\u{441}\u{442} \u{434}\u{43b}\u{44f} \u{43f}\u{440}\u{43e}\u{432}\u{435}\u{440}\u{43a}\u{438} \u{43a}\u{43e}\u{434}\u{438}\u{440}\u{43e}\u{432}\u{43a}\u{438}. ".repeat(4);
             let body = encode_text(&ru, "windows-1251").unwrap_or_default();
@@ -192,7 +192,7 @@ pub fn run(seed: u64, n: usize, bin: &str, scratch: &str, driver: &str, out: &st
         }
         // sometimes a pre-existing sibling, a directory, or a missing input
         let mut missing = false;
-        match if special { 7 } else { rng.below(8) } {
+        match if special || k == 8 { 7 } else { rng.below(8) } {
             0 => {
                 std::fs::write(dir.join("a.windows-1251.txt"), b"existing sibling").unwrap();
             }
@@ -209,7 +209,7 @@ pub fn run(seed: u64, n: usize, bin: &str, scratch: &str, driver: &str, out: &st
             _ => {}
         }
         // ---- flags ----
-        let fl = match if k == 1 || k == 3 || k == 7 { 3 } else if k == 2 || k == 4 { 9 } else if k == 5 { 7 } else if k == 6 { 3 } else { rng.below(10) } {
+        let fl = match if k == 1 || k == 3 || k == 7 || k == 8 { 3 } else if k == 2 || k == 4 { 9 } else if k == 5 { 7 } else if k == 6 { 3 } else { rng.below(10) } {
             0 => Flags { normalize: false, replace: true, force: false, minimal: false, alternatives: false, threshold: None },
             1 => Flags { normalize: true, replace: false, force: true, minimal: false, alternatives: false, threshold: None },
             2 => Flags { normalize: false, replace: false, force: false, minimal: false, alternatives: false, threshold: Some(*rng.pick(&[1.5f32, -0.25, 2.0])) },
@@ -231,8 +231,22 @@ pub fn run(seed: u64, n: usize, bin: &str, scratch: &str, driver: &str, out: &st
         if fl.alternatives { args.push("-a".into()); }
         if let Some(t) = fl.threshold { args.push(format!("--threshold={}", t)); }
         args.extend(inputs.iter().cloned());
+        // one invocation in four (and the fixed collision case) spells its inputs RELATIVE to the case directory --
+        // "name", "./name", "sub/../name" -- and runs there: what is compared with what must not depend on the spelling
+        let relative = k == 8 || (!special && rng.chance(1, 4));
+        if relative {
+            let _ = std::fs::create_dir_all(dir.join("sub"));
+            let dprefix = format!("{}/", dir.to_string_lossy());
+            for a in args.iter_mut() {
+                if let Some(rest) = a.strip_prefix(&dprefix) {
+                    if !rest.contains('/') {
+                        *a = match rng.below(3) { 0 => rest.to_string(), 1 => format!("./{}", rest), _ => format!("sub/../{}", rest) };
+                    }
+                }
+            }
+        }
         let before = snapshot(&dir);
-        let outp = Command::new(bin).args(&args).stdin(Stdio::null()).output();
+        let outp = if relative { Command::new(bin).args(&args).current_dir(&dir).stdin(Stdio::null()).output() } else { Command::new(bin).args(&args).stdin(Stdio::null()).output() };
         let outp = match outp {
             Ok(o) => o,
             Err(e) => {
